@@ -351,8 +351,8 @@ Proof.
     destruct (sl_ed P L _ _ _ (blake2b P 32 em) H') as [_ [_ [_ [_ [s [Hs [Hl Hv]]]]]]].
     exists s. rewrite Hs, Hv. auto.
   - destruct H as [H ->].
-    destruct (sl_sp P L _ _ (blake2b P 32 em) H) as [_ [Hd [s [Hs [Hl Hv]]]]].
-    exists s. rewrite Hs, Hd, Hv. auto.
+    destruct (sl_sp P L _ _ (blake2b P 32 em) H) as [_ [Hd [s [Hs [Hl [Hp Hv]]]]]].
+    exists s. rewrite Hs, Hd, Hp, Hv. auto.
   - destruct H as [H ->].
     destruct (sl_p2 P L _ _ (blake2b P 32 em) H) as [_ [Hd [r [s [Hs [Hr [Hs' Hv]]]]]]].
     destruct (to_bytes_be_32 r Hr) as [Er [Vr Lr]]. destruct (to_bytes_be_32 s Hs') as [Es [Vs Ls]].
@@ -503,7 +503,11 @@ Definition raw_verify_on (P : prims) (c : curve) (pk ds pl : bytes) : verdict :=
   match c with
   | Ed => verdict_of (ed_verify P ds pl pk)
   | Sp => match sp_decode P pk with
-          | PTrue => verdict_of (sp_verify P pk ds pl)
+          | PTrue => match sp_parse P ds with
+                     | PTrue => verdict_of (sp_verify P pk ds pl)
+                     | PValueError => Invalid
+                     | _ => Crashed
+                     end
           | PValueError => Invalid
           | _ => Crashed
           end
